@@ -159,6 +159,12 @@ class SimTransport(asyncio.Transport):
         self.n_writes = 0
         self.reading = False
         self._early: list = []
+        # a peer that stops reading: the kernel send buffer fills up, writes stay in the transport's buffer and the
+        # protocol is paused above the high-water mark (64 KiB); close() with a non-empty buffer defers
+        # connection_lost until the buffer is flushed -- which never happens once the fd was closed under the transport
+        self.stalled = False
+        self.buffer = bytearray()
+        self.proto_paused = False
         env.log("transport_new", tr=self.idx, conn=getattr(getattr(proto, "_connection", None), "_vf_id", None), sock=sock.idx)
 
     # --- client side -------------------------------------------------------
@@ -171,8 +177,12 @@ class SimTransport(asyncio.Transport):
         self.n_writes += 1
         dead = self.sock.closed  # the connection already closed the socket under the transport
         self.env.log("write", tr=self.idx, data=b, closing=self.closing, dead=dead)
-        if self.closing or self.conn_lost_scheduled:
+        if self.conn_lost_scheduled or (self.closing and not self.buffer):
             return  # dropped, like a real closing transport
+        if self.buffer:  # (_conn_lost is still 0 while a closing transport waits to flush: writes are appended)
+            self.buffer += b
+            self._maybe_pause()
+            return
         if dead:
             # sock.send on a closed socket: EBADF -> _fatal_error -> connection_lost(exc); nothing reaches the peer
             self._force_close(OSError(9, "Bad file descriptor"))
@@ -183,7 +193,42 @@ class SimTransport(asyncio.Transport):
                 raise exc
             self._force_close(exc)
             return
+        if self.stalled:
+            self.buffer += b
+            self._maybe_pause()
+            return
         self.session.on_client_bytes(b)
+
+    def _maybe_pause(self) -> None:
+        if len(self.buffer) > 65536 and not self.proto_paused:
+            self.proto_paused = True
+            self.env.log("pause_writing", tr=self.idx)
+            self.proto.pause_writing()
+
+    def stall(self) -> None:
+        if not self.closing:
+            self.stalled = True
+            self.env.log("stall", tr=self.idx)
+
+    def unstall(self) -> None:
+        """The peer reads again: the buffer drains (unless the fd is gone: then the selector never fires again)."""
+        if not self.stalled:
+            return
+        self.stalled = False
+        self.env.log("unstall", tr=self.idx, buffered=len(self.buffer), dead=self.sock.closed)
+        if self.conn_lost_scheduled or self.sock.closed:
+            self.buffer.clear()
+            return
+        if self.buffer:
+            data = bytes(self.buffer)
+            self.buffer.clear()
+            self.session.on_client_bytes(data)
+        if self.proto_paused:
+            self.proto_paused = False
+            self.env.log("resume_writing", tr=self.idx)
+            self.proto.resume_writing()
+        if self.closing:
+            self._schedule_lost(None)
 
     def writelines(self, lines) -> None:
         self.write(b"".join(lines))
@@ -195,8 +240,9 @@ class SimTransport(asyncio.Transport):
         if self.closing:
             return
         self.closing = True
-        self.env.log("transport_close", tr=self.idx)
-        self._schedule_lost(None)
+        self.env.log("transport_close", tr=self.idx, buffered=len(self.buffer))
+        if not self.buffer:
+            self._schedule_lost(None)
 
     def abort(self) -> None:
         self._force_close(None)
@@ -218,7 +264,7 @@ class SimTransport(asyncio.Transport):
         pass
 
     def get_write_buffer_size(self):
-        return 0
+        return len(self.buffer)
 
     def _force_close(self, exc) -> None:
         if self.conn_lost_scheduled:
@@ -226,6 +272,7 @@ class SimTransport(asyncio.Transport):
         if not self.closing:
             self.closing = True
             self.env.log("transport_close", tr=self.idx, forced=True)
+        self.buffer.clear()
         self._schedule_lost(exc)
 
     def _schedule_lost(self, exc) -> None:
